@@ -105,6 +105,58 @@ def short_after_stream(rng, idx):
     return "short-after-stream#%d" % idx, s
 
 
+def window_exact(rng, idx):
+    """Utterances whose length is exactly one analysis window plus a whole number of frame shifts (410 + 160 k samples at
+    the bundled model's 16 kHz), one sample less and one more, passed as ONE full-utterance call, as one streaming call
+    and in two pieces, on a fresh decoder and after other utterances: the frame-count estimate the full-utterance path
+    takes from the front end decides how many frames are searched."""
+    cfg = {"hmm": os.path.join(sut.REPO, "model", "en-us"), "dict": os.path.join(sut.REPO, "tests", "data", "turtle.dic"),
+           "loglevel": "FATAL"}
+    s = list(decmatrix.audio_defs()) + ["init " + decmatrix.hx(json.dumps(cfg)),
+         "jsgf " + decmatrix.hx("#JSGF V1.0;\ngrammar g;\npublic <s> = (go | forward | ten | meters | stop)+;\n")]
+    for u in range(6):
+        k = rng.choice([0, 1, 2, 3, 10, 50, 99, 100, 262])
+        n = 410 + 160 * k + rng.choice([0, 0, 0, -1, 1, 159])
+        off = rng.choice([0, 1000, 2000])
+        enc = rng.choice(["i16", "f32"])
+        ns = rng.choice([0, 0, 1])
+        s.append("start")
+        how = rng.choice(["full", "full", "one", "two"])
+        if how == "full":
+            s.append("feed gf %d %d %s %d 1" % (off, n, enc, ns))
+        elif how == "one":
+            s.append("feed gf %d %d %s %d 0" % (off, n, enc, ns))
+        else:
+            cut = rng.randrange(0, n + 1)
+            s.append("feed gf %d %d %s %d 0" % (off, cut, enc, ns))
+            s.append("feed gf %d %d %s %d 0" % (off + cut, n - cut, enc, ns))
+        s += ["end", "result w%d" % u]
+    s.append("free")
+    return "window-exact#%d" % idx, s
+
+
+def big_history(rng, idx, beam):
+    """A free word loop over the whole test dictionary between two fixed words: tens of thousands of word exits in one
+    utterance (the history table grows past 2^15 entries), so that every index kept in the table is exercised at its
+    full width.  The result must still be a sentence: go <any words> meters."""
+    dic = os.path.join(sut.REPO, "tests", "data", "turtle.dic")
+    cfg = {"hmm": os.path.join(sut.REPO, "model", "en-us"), "dict": dic, "loglevel": "FATAL"}
+    cfg.update(decmatrix.BEAMS[beam])
+    ws = [w for w in decmatrix.words_of_dict(dic) if w[0].isalpha() and w.isalnum()]
+    g = "#JSGF V1.0;\ngrammar g;\npublic <s> = go <w>* meters;\n<w> = " + " | ".join(ws) + ";\n"
+    aud = rng.choice(["gf", "gf2"]) if beam == "default" else "gf"
+    s = list(decmatrix.audio_defs()) + ["init " + decmatrix.hx(json.dumps(cfg)), "jsgf " + decmatrix.hx(g), "start"]
+    n, off = decmatrix.AUDIO_LEN[aud], 0
+    while off < n:
+        k = min(n - off, rng.choice([8000, 16000, 30000]))
+        s.append("feed %s %d %d i16 0 0" % (aud, off, k))
+        off += k
+        if off < n and rng.random() < 0.5:
+            s.append("result p%d" % off)
+    s += ["end", "result fin", "histsize", "free"]
+    return "big-history-%s#%d" % (beam, idx), s
+
+
 def run_which(ctx, which):
     rep = ctx.report
     quick = ctx.tier == "quick"
@@ -123,6 +175,8 @@ def run_which(ctx, which):
         # backtrace / segment iterator on each (a seeded sample in the quick tier)
         cases += [long_after_batch(rng, n + 50 + i) for i in range(3 if quick else 40)]
         cases += [short_after_stream(rng, n + 70 + i) for i in range(3 if quick else 40)]
+        cases += [window_exact(rng, n + 60 + i) for i in range(4 if quick else 40)]
+        cases += [big_history(rng, n + 66 + i, b) for i, b in enumerate(["default"] if quick else ["default", "default", "wide"])]
         # alignments and alignment-level JSON asked for in mid-utterance (they rewind the acoustic model and run a second
         # pass): the frames that follow must still all be searched
         for i in range(8 if quick else 100):
@@ -137,6 +191,11 @@ def run_which(ctx, which):
     for eid, why in crashes:
         p = decmatrix.write_replay(ctx, "crash_" + eid, by_id[eid])
         rep.violation(runner.crash_key(why), "decoder crashed while producing a result (%s): %s" % (eid, why), p)
+    big = [json.loads(l)["n"] for eid, ch in chunks if eid.startswith("big-history") for l in ch if l.startswith('{"e":"HistSize"')]
+    if big:
+        rep.notes["big_history_table_entries"] = big
+        if not ctx.replay and max(big) <= 33000:
+            raise tlc.ModelError("vacuous: the big-history family reached only %d history entries (wanted > 2^15)" % max(big))
     fch = [(eid, decmatrix.filter_events(ch, KEEP)) for eid, ch in chunks]
     acc, fails, results = tracecheck.validate(SPEC, "ResultTrace.tla", "ResultTrace.cfg", fch, ctx.work, timeout=1500,
                                               env=env, max_fail=8)
